@@ -259,7 +259,7 @@ def rand_history(rng, nsteps, crashes=True, deletes=True, crash_kinds=("crash", 
             nb += 1
             last_crashed = plan is not None and "faults" not in plan
         elif r < 0.55 and deletes and nb > 0:
-            ids = sorted(rng.sample(range(nb), rng.randrange(0, min(nb, 3) + 1)))
+            ids = rng.sample(range(nb), rng.randrange(0, min(nb, 3) + 1))      # in any order
             st = {"op": "delete", "bands": ids, "dry": rng.random() < 0.2}
             steps.append(st)
             marks.append({"kind": "delete", "ids": ids, "dry": st["dry"]})
